@@ -13,6 +13,7 @@ struct ZooGenCfg
 	bool smartPointersSet = false;
 	bool nonEmptyStrings = false;
 	int jumboMember = -1;        // >= 0: this sequence member gets a size around the library's estimate cap (1024); see DrawJumbo
+	uint32_t altChronoOneIn = 0;  // > 0 (text archives, Skip policies only): 1 value in N writes its chrono wrappers as arbitrary texts
 	uint32_t altDocOneIn = 0;    // > 0: 1 generated value in N is written by "another version of the class" (null elements in sets)
 	uint32_t jumboOneIn = 1;     // the member is made big in 1 of N generated values (histories mix big and small states)
 };
@@ -169,6 +170,15 @@ inline void GenZoo(Source& s, Lane l, Zoo& z, const ZooGenCfg& g)
 		if (g.nonEmptyStrings) { if (r.name.empty()) r.name = "n"; if (r.wide.empty()) r.wide = u"n"; }
 		z.rows.push_back(r);
 	}
+	if (s.chance(l, 1, 2)) z.optDur = std::chrono::seconds(GenSigned(s, l, 40));
+	if (s.chance(l, 1, 2)) z.uDur = std::make_unique<std::chrono::seconds>(GenSigned(s, l, 40));
+	if (g.altChronoOneIn && (g.archive == A_JSON || g.archive == A_XML) && s.chance(l, 1, g.altChronoOneIn))
+	{
+		z.altChronoDoc = true;
+		static const char* const texts[] = { "PT90S", "P106751991167301D", "-P106751991167301D", "PT99999999999999999999999H", "bogus", "P1Y", "PT1.5S", "2000-01-01T00:00:00Z" };
+		if (s.chance(l, 2, 3)) z.optDurAlt = s.pick(l, texts);
+		if (s.chance(l, 2, 3)) z.uDurAlt = s.pick(l, texts);
+	}
 	if (g.altDocOneIn && g.archive != A_CSV && s.chance(l, 1, g.altDocOneIn))
 	{
 		z.altSetDoc = true;
@@ -263,7 +273,8 @@ inline std::map<std::string, std::string> ZooFields(const Zoo& z, bool csv)
 	auto mapRepr = [](const auto& m) { std::string r = "{"; for (auto& kv : m) r += HexStr(kv.first) + ":" + std::to_string(kv.second) + ","; return r + "}"; };
 	f["map"] = mapRepr(z.map);
 	{ std::string r = "{"; for (auto& kv : z.imap) r += std::to_string(kv.first) + ":" + HexStr(kv.second) + ","; f["imap"] = r + "}"; }
-	{ std::vector<std::pair<int32_t, int32_t>> v(z.mmap.begin(), z.mmap.end()); std::sort(v.begin(), v.end()); std::string r = "{"; for (auto& kv : v) r += std::to_string(kv.first) + ":" + std::to_string(kv.second) + ","; f["mmap"] = r + "}"; }
+	// (an ordered multimap keeps equal keys in insertion order and operator== compares the sequences: the order is part of the value)
+	{ std::string r = "{"; for (auto& kv : z.mmap) r += std::to_string(kv.first) + ":" + std::to_string(kv.second) + ","; f["mmap"] = r + "}"; }
 	{ std::map<std::string, int32_t> m(z.umap.begin(), z.umap.end()); f["umap"] = mapRepr(m); }
 	{ std::vector<std::pair<int32_t, int32_t>> v(z.ummap.begin(), z.ummap.end()); std::sort(v.begin(), v.end()); std::string r = "{"; for (auto& kv : v) r += std::to_string(kv.first) + ":" + std::to_string(kv.second) + ","; f["ummap"] = r + "}"; }
 	f["mapOnlyExist"] = mapRepr(z.mapOnlyExist);
@@ -287,6 +298,8 @@ inline std::map<std::string, std::string> ZooFields(const Zoo& z, bool csv)
 	{ std::string r = "["; for (auto& o : z.vo) r += (o ? std::to_string(*o) : std::string("null")) + ","; f["vo"] = r + "]"; }
 	{ std::string r = "["; for (auto& o : z.vobj) r += std::to_string(o.a) + "/" + HexStr(o.b) + ","; f["vobj"] = r + "]"; }
 	{ std::string r; HexAppend(r, z.bin.data(), z.bin.size()); f["bin"] = r; }
+	f["optDur"] = z.optDur ? std::to_string(z.optDur->count()) : "null";
+	f["uDur"] = z.uDur ? std::to_string(z.uDur->count()) : "null";
 	auto innerRepr = [](const Inner* in) { return in ? std::to_string(in->a) + "/" + HexStr(in->b) : std::string("null"); };
 	{ std::string r = "["; for (auto& o : z.voObj) r += innerRepr(o ? &*o : nullptr) + ","; f["voObj"] = r + "]"; }
 	{ std::string r = "["; for (auto& o : z.vuObj) r += innerRepr(o.get()) + ","; f["vuObj"] = r + "]"; }
